@@ -30,8 +30,9 @@ PROP = {
                    "books are the table - C01's invariant holds, one element object per stored item (same keys), one bucket array of pvGetBufferSize(logCount) "
                    "bytes per generation, BucketParams iff a table exists, live objects = count (C03_hash_books_are_table). Tied to the code by c03_htledger: "
                    "after every operation the model predicts number and bytes of the manager's outstanding blocks (bucket arrays, BucketParams, crews - each "
-                   "looked up by address in the manager's ledger with the size the container must have requested), pool buffers, live element objects, and "
-                   "the constructor / destructor runs of the operation. "
+                   "looked up by address in the manager's ledger with the size the container must have requested), pool buffers, live element objects, "
+                   "the constructor / destructor runs of the operation (kinds without pools) and, for LimP4, the number of live memory-pool blocks "
+                   "(MemPool::GetAllocateCount of the four pools = non-empty buckets). "
                    "Run time: every Allocate / Deallocate / Reallocate call and every constructor / destructor / assignment / functor use of "
                    "instrumented elements during random histories (with injected allocation failures, throwing copies, throwing hash / equality / "
                    "ordering functors, clear-with-shrink, copies, moves, swaps, merges between equal and unequal managers, destruction) of Array, "
@@ -82,6 +83,13 @@ PROP = {
         {"name": "c03_hashmap", "src": "c03_hash.cpp", "sanitize": "asan", "flags": ["-DC03_PART=1"], "timeout_quick": 600},
         {"name": "c03_hashopen", "src": "c03_hash.cpp", "sanitize": "asan", "flags": ["-DC03_PART=2"], "timeout_quick": 600},
         {"name": "c03_hashold", "src": "c03_hash.cpp", "sanitize": "asan", "flags": ["-DC03_PART=3"], "timeout_quick": 600},
+        # configuration corners (coverage group G4): LimP<7>/<15> with pointer state; pools with one block per buffer (Clear gives bucket arrays
+        # back one by one); LimP4 with 48- / 32-bit pointer states (32: all blocks from an arena below 4 GB; the macro is needed because momo
+        # ignores a manager's own ptrUsefulBitCount, observation O3)
+        {"name": "c03_hashcfg", "src": "c03_hash.cpp", "sanitize": "asan", "flags": ["-DC03_PART=4"], "timeout_quick": 600},
+        {"name": "c03_hashpool1", "src": "c03_hash.cpp", "sanitize": "asan", "flags": ["-DC03_PART=5"], "timeout_quick": 600},
+        {"name": "c03_hashp48", "src": "c03_hash.cpp", "sanitize": "asan", "flags": ["-DC03_PART=6", "-DC03_PTRBITS=48", "-DMOMO_MEM_MANAGER_PTR_USEFUL_BIT_COUNT=48"], "timeout_quick": 600},
+        {"name": "c03_hashp32", "src": "c03_hash.cpp", "sanitize": "asan", "flags": ["-DC03_PART=7", "-DC03_PTRBITS=32", "-DC03_ARENA32", "-DMOMO_MEM_MANAGER_PTR_USEFUL_BIT_COUNT=32"], "timeout_quick": 600},
         {"name": "c03_treeset", "src": "c03_tree.cpp", "sanitize": "asan", "flags": ["-DC03_PART=0"], "timeout_quick": 600},
         {"name": "c03_treemap", "src": "c03_tree.cpp", "sanitize": "asan", "flags": ["-DC03_PART=1"], "timeout_quick": 600},
         {"name": "c03_treesmall", "src": "c03_tree.cpp", "sanitize": "asan", "flags": ["-DC03_PART=2"], "timeout_quick": 600},
@@ -112,7 +120,11 @@ PROP = {
              "failing so that 2-3 generations pile up), find, remove (throwing assignment, throwing equality), remove-if (assignment throwing at the n-th removal), "
              "reserve, clear with and without shrink, extract / re-insert / drop, copy assignment with a fault at every stage (crew, array, params, n-th item), "
              "move, swap, merge, and the monitor's own verdict over the whole event list. distinct_nontrivial there = distinct (bucket kind, operation, "
-             "exception, fault tokens) that exited with an exception, plus the histories."),
+             "exception, fault tokens) that exited with an exception, plus the histories. "
+             "Added for coverage (4 hash executables, 13 configurations, same histories): c03_hashcfg = HashBucketLimP<7> / <15> with pointer state "
+             "(24-byte nothrow-move and copy-only keys, 32-byte trivially relocatable pairs); c03_hashpool1 = LimP<3>, LimP<5, no pointer state>, "
+             "LimP1<3>, LimP4<4> over MemPoolParams<1> (no DeallocateAll: every bucket array is given back by Clear / destruction one by one); "
+             "c03_hashp48 / c03_hashp32 = LimP4<4>, <2>, <3> with 6- / 4-byte pointer states (32: every block from an arena below 4 GB)."),
     "runtime_only": ["ASan/UBSan on every history; blocks given back are kept poisoned until the end of the history, so a later access aborts",
                      "absence of out-of-bounds accesses inside live blocks",
                      "that the recorder sees every event (elements are instrumented types; plain integers have block events only)"],
